@@ -200,9 +200,20 @@ fn grid_sweep(cases: &[Case], c_ans: &[Option<String>], py_ans: &[J], sh: &util:
             let want = py.unwrap();
             if got.as_deref() != Some(want) {
                 let neg_zero = matches!(&c.val, Some(Val::Float(f)) if *f == 0.0 && f.is_sign_negative());
-                let sig = if neg_zero {
+                // known findings are recognised by their exact symptom, nothing broader:
+                // only the minus sign of -0.0 missing / only the %s precision not applied
+                // (the mantissa sign position: `-` expected, nothing / `+` / space rendered)
+                let strip = |t: &str| {
+                    let t = t.trim_matches(' ');
+                    let (mant, exp) = match t.find(['e', 'E']) { Some(p) => (&t[..p], &t[p..]), None => (t, "") };
+                    format!("{}{exp}", mant.replace(['-', '+'], "").trim_matches(' ').trim_start_matches('0'))
+                };
+                let mant_of = |t: &str| t.split(['e', 'E']).next().unwrap_or("").to_string();
+                let only_sign_missing = got.as_ref().is_some_and(|g| !mant_of(g).contains('-') && mant_of(want).contains('-') && strip(g) == strip(want));
+                let only_precision_ignored = got.as_ref().is_some_and(|g| g.trim().starts_with(want.trim()) && g.chars().count() >= want.chars().count());
+                let sig = if neg_zero && only_sign_missing {
                     "C19/negative-zero-sign".to_string()
-                } else if c.conv == 's' && c.fmt.contains('.') {
+                } else if c.conv == 's' && c.fmt.contains('.') && only_precision_ignored {
                     "C19/string-precision-ignored".to_string()
                 } else if c.fmt.ends_with(&format!(".{}", c.conv)) && got.is_none() {
                     "C19/empty-precision-rejected".to_string()
